@@ -160,10 +160,26 @@ class Monitor:
         self.judged = 0
         self.pause_hold_ticks = 0              # engine ticks that began Paused/Holding
         self.error = False
-        self.restarted = False
+        self.run_id = None
+        self.run_starts = 0
+        self.block_tag_at_run_start = None     # Block tag value carried into the current run (None/"" normally)
 
     def V(self, mech, msg):
         self.viol.append((mech, msg))
+
+    def after_engine_tick(self):
+        rid = self.rig.tag("Run Id") or None
+        if rid and rid != self.run_id:
+            self.run_starts += 1
+            self.block_tag_at_run_start = self.rig.tag("Block")
+        self.run_id = rid
+
+    def stale_mech(self, c):
+        """Narrow classifier: the line has no enclosing block, no block is active, but the Block tag still carries the
+        name it had when the previous run was stopped/restarted, so the interpreter reads the block clock."""
+        if c["kind"] == "stale" and self.run_starts >= 2 and c["block_tag"] == self.block_tag_at_run_start:
+            return MECH_STALE
+        return None
 
     # ---- which clock does the statement designate for this line, now?
     def context(self, interp, node):
@@ -246,7 +262,7 @@ class Monitor:
                 res.count("evals_clock_equals_threshold")
             expected = c["clock"] < c["T"]
             if bool(result) != expected:
-                mech = MECH_STALE if c["kind"] == "stale" else None
+                mech = self.stale_mech(c)
                 if result:
                     self.V(mech, f"tick {self.rig.k}: line {node.id} ({node.threshold_part.strip()} {node.name}) is held back "
                                  f"although its clock has reached the threshold: {c['tag']}={c['raw']!r} >= {float(c['T'])} s/L "
@@ -277,7 +293,7 @@ class Monitor:
                 res.count("threshold_starts_judged")
                 self.judged += 1
                 if c["clock"] < c["T"]:
-                    mech = MECH_STALE if c["kind"] == "stale" else None
+                    mech = self.stale_mech(c)
                     self.V(mech, f"tick {self.rig.k}: line {node.id} ({node.threshold_part.strip()} {node.name}) started while "
                                  f"{c['tag']}={c['raw']!r} < threshold {float(c['T'])} s/L (Base {c['base']}, Block tag "
                                  f"{c['block_tag']!r}, context {c['kind']})")
@@ -304,6 +320,11 @@ class Monitor:
         if succ is None:
             self.res.count("wait_without_successor")
             return
+        prev = self.waits.get(id(node))
+        if prev is not None:
+            # the Wait starts again (Alarm re-arm) before its successor ever started: the old record is not judged
+            prev["closed"] = True
+            self.res.count("wait_record_superseded")
         w = {"node": node, "succ": succ, "d": d, "k": self.rig.k, "itick": self.itick, "ph": self.pause_hold_ticks}
         self.waits[id(node)] = w
         self.succ_of.setdefault(id(succ), []).append(w)
@@ -555,6 +576,7 @@ def check_case(case, res: Result):
         if case["vol"]:
             rig.hw.inputs["Tot"] = 0.0
         rig.start()
+        mon.after_engine_tick()
         last_ev = 0
         n_trace = len(R.TRACE)
         while rig.k < ticks:
@@ -568,6 +590,7 @@ def check_case(case, res: Result):
             if case["vol"]:
                 rig.hw.inputs["Tot"] = case["tot"][k]
             rig.tick(catch=True)
+            mon.after_engine_tick()
             if rig.tick_exc:
                 res.count("engine_tick_raised")
                 break
